@@ -11,7 +11,7 @@ AXIOMS = []
 TRUSTED = [
     'Coq 8.16.1 kernel; vm_compute for the correspondence evaluation; no axioms',
     'model/Duplicates.v is hand written (strict INI parse on normalised keys, _check_for_duplicate_pairs, check_for_duplicate_table_forms, registry label checks); optionxform, _key_transform and _check_for_duplicate_pairs are asserted on the AST; the accept/reject verdict is compared with Configuration().read on every run',
-    'text-level lexing by generation: keys are structures printed with varying whitespace (Python\'s configparser lexes)',
+    'text level: proof/StoreText.v proves that the printed raw file is parsed (model/Ini.v) into the store; model/Ini.v restates the line parser of the stdlib configparser as the repository configures it - an assumption about a library outside the repository, compared with it on every run (generated files; the model\'s printer against the printer of the harness, text_store against the raw parser)',
 ]
 PRE = 'From V Require Import lib.Common model.Store model.Duplicates.\nLocal Open Scope nat_scope.\n'
 MUTATIONS = ['none', 'same_line', 'ws_pair', 'reversed_pair', 'ws_species', 'ws_fs', 'ws_sig', 'sig_other_params', 'dup_section', 'table_dup', 'table_ws_dup',
